@@ -54,6 +54,12 @@ def make_lifetime(spec, dims):
     prms = {k: make_prm(v, dims) for k, v in lt["prms"].items()}
     model = cls(dims=dims, time_letter="t", inflow_at=lt["inflow_at"], n_pts_per_interval=lt["n_pts"], **prms)
     scramble(prms)
+    if spec.get("id", 0) % 3 == 1:
+        # the same parameters once more through set_prms, positionally, in the documented order
+        from gen_dsm import MODELS
+        again = {k: make_prm(v, dims) for k, v in lt["prms"].items()}
+        model.set_prms(*[again[name] for name in MODELS[lt["cls"]]])
+        scramble(again)
     return model
 
 
